@@ -131,4 +131,59 @@ def detach (s : SSt) (h : Nat) : List Alt :=
     [{ ok := false, st := s }] ++ (if shared then [] else [{ ok := true, st := s }]) ++
       [{ ok := true, st := s2, evs := if shared then [{ obj := o, copied := ob.elems }] else [] }]
 
+/-! ### handles owned by objects (C++ `reference<T>` members): slot `nroot + o` belongs to object `o` -/
+
+/-- objects without a reference die, the handle a dead object owns goes away, which may leave its referent
+    without a reference: repeated until stable; the events are collected -/
+def settle (nroot : Nat) : Nat → SSt × List SEv → SSt × List SEv
+  | 0, x => x
+  | fuel + 1, (s, evs) =>
+    match (List.range s.objs.length).find? (fun o => (s.objs.getD o default).dead && (s.hnd.getD (nroot + o) none).isSome) with
+    | none => (s, evs)
+    | some o =>
+      match s.hnd.getD (nroot + o) none with
+      | none => (s, evs)
+      | some t =>
+        let (s', d) := released (setHnd s (nroot + o) none) t
+        settle nroot fuel (s', evs ++ [{ obj := t, unref := 1, destroyed := d }])
+
+def settled (nroot : Nat) (a : Alt) : Alt :=
+  let r := settle nroot (a.st.objs.length + 1) (a.st, a.evs)
+  { a with st := r.1, evs := r.2 }
+
+/-- C++ copy assignment of handle slot `h` from a handle whose referent is `src` -/
+def xassign (nroot : Nat) (s : SSt) (h : Nat) (src : Option Nat) : List Alt :=
+  let old := s.hnd.getD h none
+  if src = old then [{ ok := true, st := s }]
+  else
+    let lost : List Alt :=          -- the new referent cannot be retained: unchanged, or the handle ends up empty
+      match src with
+      | some n =>
+        if canTake s n then []
+        else
+          ((assign s h none false).map fun a => { a with evs := { obj := n, add := 1, dead := (s.objs.getD n default).dead } :: a.evs }) ++
+          (assign s h none false) ++ refusedAlts s n
+      | none => []
+    ((if lost.isEmpty then assign s h src false else lost).map fun a => settled nroot { a with ok := true })
+
+/-- C++ move assignment: slot `g` is emptied, its reference now belongs to slot `h` -/
+def xmove (nroot : Nat) (s : SSt) (h g : Nat) : List Alt :=
+  if h = g then [{ ok := true, st := s }]
+  else
+    let r := s.hnd.getD g none
+    let old := s.hnd.getD h none
+    let s1 := setHnd (setHnd s g none) h r
+    match old with
+    | none => [settled nroot { ok := true, st := s1 }]
+    | some o =>
+      let (s2, d) := released s1 o
+      [settled nroot { ok := true, st := s2, evs := [{ obj := o, unref := 1, destroyed := d }] }]
+
+/-- the handle gives its reference away -/
+def xdetach (s : SSt) (h : Nat) : List Alt :=
+  match s.hnd.getD h none with
+  | none => [{ ok := true, st := s }]
+  | some o =>
+    [{ ok := true, st := { (setHnd s h none) with objs := s.objs.set o { (s.objs.getD o default) with ext := (s.objs.getD o default).ext + 1 } } }]
+
 end Mpt.Refs
